@@ -138,11 +138,11 @@ theorem leakcheck_count_zero (lines : List String) (hk : (leakStep (run lines)).
 /-- what `ssink s` then `accum c s …` compile to: the sink `0`, then loop stream `1`, loop object
     `2`, hold node `3`, snapshot node `4`, with the cycle `3 → 1 → 4 → 3` -/
 def exAccumOps : List GOp :=
-  [.new "Stream::new",
-   .inc 0, .new "Stream::new", .new "StreamLoop::new", .edge 2 1,
-   .new "Cell::hold", .edge 3 1, .edge 3 1, .edge 3 1,
-   .new "Stream::map", .edge 4 0, .edge 4 0, .edge 4 3,
-   .edge 1 4, .edge 1 4, .dec 4, .dec 1, .dec 2, .dec 0]
+  [.new "Stream::new", .sdeps 0 [], .eot,
+   .inc 0, .new "Stream::new", .sdeps 1 [], .new "StreamLoop::new", .edge 2 1,
+   .new "Cell::hold", .edge 3 1, .edge 3 1, .edge 3 1, .sdeps 3 [1],
+   .new "Stream::map", .edge 4 0, .edge 4 0, .edge 4 3, .sdeps 4 [0],
+   .edge 1 4, .edge 1 4, .sadd 1 4, .dec 4, .dec 1, .dec 2, .dec 0, .eot]
 
 /-- the list above is the compiler's output (word lists, no string parsing) -/
 example :
@@ -189,8 +189,8 @@ example :
 /-- what `ssink s` then `listen l s` compile to: sink `0`, listen node `1`, listener `2` (held by
     the script and by the context's keep-alive list) -/
 def exListenOps : List GOp :=
-  [.new "Stream::new", .inc 0, .new "Stream::listen", .edge 1 0, .edge 1 0,
-   .new "Listener::new", .edge 2 1, .dec 1, .inc 2, .dec 0]
+  [.new "Stream::new", .sdeps 0 [], .eot, .inc 0, .new "Stream::listen", .edge 1 0, .edge 1 0, .sdeps 1 [0],
+   .new "Listener::new", .edge 2 1, .dec 1, .inc 2, .dec 0, .eot]
 
 example :
     (match compile [] 0 ["ssink", "s"] with | .ops l _ => l | _ => []) ++
